@@ -36,6 +36,10 @@ model_class('Engine', fields={
     ghost={'g_version': 'Int', 'g_emits': 'Seq[Real]', 'g_steps_run': 'Int', 'g_views_valid': 'Bool'})
 model_class('_StepGraph', fields={'_sequential_steps': 'Seq[Path]'})
 
+# what Engine.apply_update may change besides the scheduler's own maps (see specs/c_apply.py)
+APPLY_FRAME = ['self.processes', 'self.steps', 'self.topology', 'self.flow', 'Store.value', 'Store.inner', 'Store.outer',
+               'Store.topology', 'Store.g_report', '_StepGraph._sequential_steps', '_StepGraph.g_deps', '_StepGraph.g_seq']
+
 contract(E + 'empty_front', props=['C01', 'C02', 'C10'],
          types={'t': 'Real', 'ret': 'Front'},
          ensures=['ret["time"] == t', 'is_alt(ret["update"], "empty")'])
@@ -75,14 +79,7 @@ external(E + 'Engine._emit_store_data',
          modifies=['self.g_emits'],
          ensures=['self.g_emits == old(self.g_emits) + (self.global_time,)'],
          why_trusted='emitter side (Store.emit_data, Emitter.emit) is bounded-checked under C12; ghost log of emit times')
-external(E + 'Engine.apply_update',
-         types={'update': 'Tree', 'state': 'Ref[Store]', 'ret': 'Bool'},
-         modifies=['self.process_paths', 'self._step_paths', 'self.g_version', 'self.g_views_valid'],
-         ensures=['self.g_version >= old(self.g_version)',
-                  'self.g_views_valid == (old(self.g_views_valid) and not ret)'],
-         why_trusted='its own bookkeeping is treated under C10; here the frame (it never touches front, global_time or the '
-                     'ledger) and the meaning of its result: True iff the applied update expired the topology views '
-                     '(Store.apply_update reports view_expire for every structural key: bounded-checked under C07)')
+# Engine.apply_update: verified, see specs/c_apply.py (summary contract for the callers + bookkeeping variant)
 
 contract(E + 'EmptyDefer.__init__', props=['C01'],
          types={}, alloc=True,
@@ -150,7 +147,7 @@ contract(E + 'Engine.run_steps', props=['C05', 'C04', 'C07'],
          requires=['self.g_views_valid'],
          modifies=['self.process_paths', 'self._step_paths', 'self.g_version', 'self.g_steps_run', 'self.g_views_valid',
                    'Store.topology_view', 'Process.g_pending', 'Defer.defer', 'Defer.args', 'Defer.g_empty',
-                   'Defer.g_issued', 'Defer.g_consumed', 'Defer.g_path', 'Defer.g_dt', 'Defer.g_live'],
+                   'Defer.g_issued', 'Defer.g_consumed', 'Defer.g_path', 'Defer.g_dt', 'Defer.g_live'] + APPLY_FRAME,
          alloc=True,
          ensures=['self.g_views_valid',                                      # views are current again when the phase ends
                   'self.g_steps_run == old(self.g_steps_run) + 1',
@@ -189,7 +186,7 @@ contract(E + 'Engine._send_updates', props=['C01', 'C05', 'C12'],
                    "forall_range(0, len(update_tuples), lambda i: forall_range(0, i, lambda j: %s != %s))" % (TOK % 'i', TOK % 'j')],
          modifies=['Defer.g_consumed', 'Defer.g_at', 'self.process_paths', 'self._step_paths', 'self.g_version',
                    'self.g_steps_run', 'self.g_views_valid', 'Store.topology_view', 'Process.g_pending', 'Defer.defer',
-                   'Defer.args', 'Defer.g_empty', 'Defer.g_issued', 'Defer.g_path', 'Defer.g_dt', 'Defer.g_live'],
+                   'Defer.args', 'Defer.g_empty', 'Defer.g_issued', 'Defer.g_path', 'Defer.g_dt', 'Defer.g_live'] + APPLY_FRAME,
          alloc=True,
          ensures=['self.g_views_valid',
                   "forall_range(0, len(update_tuples), lambda i: %s.g_consumed and %s.g_at == self.global_time)" % ((TOK % 'i',) * 2),
@@ -230,7 +227,10 @@ contract(E + 'Engine._delete_path', props=['C10'],
              "forall(lambda p: has(self.process_paths, p) == (has(old(self.process_paths), p) and not %s))" % PREFIX('deletion', 'p'),
              "forall(lambda p: implies(has(self.process_paths, p), lookup(self.process_paths, p) == lookup(old(self.process_paths), p)))",
              "forall(lambda p: has(self._step_paths, p) == (has(old(self._step_paths), p) and not %s))" % PREFIX('deletion', 'p'),
-             "forall(lambda p: implies(has(self._step_paths, p), lookup(self._step_paths, p) == lookup(old(self._step_paths), p)))"],
+             "forall(lambda p: implies(has(self._step_paths, p), lookup(self._step_paths, p) == lookup(old(self._step_paths), p)))",
+             # the same with the prefix relation as one atom (for callers that reason about several deletions)
+             "forall(lambda p: has(self.process_paths, p) == (has(old(self.process_paths), p) and not below(deletion, p)))",
+             "forall(lambda p: has(self._step_paths, p) == (has(old(self._step_paths), p) and not below(deletion, p)))"],
          loops={
              0: {'invariant': [
                  "forall(lambda p: has(self.process_paths, p) == (has(entry(self.process_paths), p) and not ((p in _done) and %s)))" % PREFIX('deletion', 'p'),
